@@ -968,6 +968,9 @@ func (n *node) Kill(pid gen.PID) error {
 	case int32(gen.ProcessStateTerminated):
 		atomic.StoreInt32(&p.state, int32(gen.ProcessStateTerminated))
 		return nil
+	case int32(gen.ProcessStateZombee):
+		// already killed. its goroutine will finish the termination
+		return nil
 	}
 
 	old := atomic.SwapInt32(&p.state, int32(gen.ProcessStateTerminated))
